@@ -324,7 +324,8 @@ def run_check(prop, tier):
         wall = time.time() - t_start
         run_wall = max(0.001, wall - build_s)
         cov = {
-            "evaluations": int(runs),
+            "evaluations": int(runs + counters.get("faulted_executions", 0)),
+            "plans": int(runs),
             "distinct_nontrivial": len(hashes),
             "rule": P["rule"],
             "samples": samples if samples else [{"note": "no sample recorded"}],
